@@ -146,7 +146,9 @@ def reference_resolution_rule(ctx, prop, rid):
                     return None
             return cur
 
-        for ref in questions:
+        # referrers: every question, and every group / repeat (its own label, relevant, repeat_count cell may name a
+        # question - also one directly inside it); targets: questions
+        for ref in everything:
             for tgt in questions:
                 if ref is tgt or tgt.name in amb:
                     continue
@@ -164,7 +166,7 @@ def reference_resolution_rule(ctx, prop, rid):
                 ok = reached is tgt and (is_rel or not want_rel)
                 r.check(ok, f"tree[{tname}] {ref.name} -> ${{{tgt.name}}}", f"{'relative path' if want_rel else 'path'} reaching {tgt.name}", ix.loc(),
                         why_fail=f"got {out!r}, which reaches {reached.name if reached is not None else 'nothing'}")
-                if not ok:
+                if not ok or ref.attrs.get("children") is not None:
                     continue
                 # the same reference inside the expression forms authors write: what surrounds the reference decides only
                 # (a) the current() prefix inside a predicate over a secondary instance, (b) the last-saved instance
@@ -628,7 +630,42 @@ def run(ctx):
     rules.append(reference_resolution_rule(ctx, "C03", "C03.R6"))
     from .c10 import _classifier_rule
     rules.append(_classifier_rule(ctx, "C03", "C03.R7"))
+    rules.append(_trigger_reference_rule(ctx))
     return rules
+
+
+def _trigger_reference_rule(ctx):
+    """The `trigger` cell is a reference like any other: Survey.xml, evaluated with the real name map and the real
+    substituter on small trees (the model / body builders are stubs), refuses a trigger that names no element or a
+    name that several elements share, and a trigger that is not a reference - for both trigger tables."""
+    from .. import trees
+    from ..xmlmodel import node_hook
+    from ..interp import GenList, NodeVal
+    r = Rule("C03", "C03.R8", "trigger references are resolved (unknown / ambiguous names refused) before anything is generated", floor=5,
+             necessary="an ambiguous or unknown trigger that passes is nested under some element the author did not name, or under none")
+    scls = ctx.repo.cls("pyxform.survey:Survey")
+    xml_fn = scls.methods["xml"]
+    spec = ("data", [("q", "a"), ("g", "g1", [("q", "phone")]), ("g", "g2", [("q", "phone"), ("q", "b")])])
+    hooks = {"fnname:node": node_hook, "fnname:validate": lambda i, a, k, n: None, "fnname:get_nsmap": lambda i, a, k, n: {},
+             "fnname:xml_model": lambda i, a, k, n: NodeVal("model"), "fnname:xml_control": lambda i, a, k, n: GenList([])}
+    for table in ("setvalues_by_triggering_ref", "setgeopoint_by_triggering_ref"):
+        for desc, trig, want in (("a question that exists once", "${a}", "accepted"), ("a name no element has", "${nobody}", "refused"), ("a name two elements share", "${phone}", "refused"),
+                                 ("text that is not a reference", "a", "refused")):
+            if table == "setgeopoint_by_triggering_ref" and want == "refused":
+                continue  # the survey-level check of the geopoint table is xls2json's (validate_background_geopoint_trigger); only acceptance is required here
+            survey, _by, _all = trees.build(ctx, spec, {"title": "T", "style": None})
+            survey.attrs["setvalues_by_triggering_ref"] = {}
+            survey.attrs["setgeopoint_by_triggering_ref"] = {}
+            survey.attrs[table] = {trig: [("b", "1")]}
+            it = ctx.interp("C03.R8", hooks=hooks)
+            it.reset([])
+            try:
+                it.call_function(xml_fn, [survey], {}, None, xml_fn.node)
+                got = "accepted"
+            except Raised as e:
+                got = "refused" if "PyXFormError" in e.mro else f"raises {e.exc_name}{e.exc_args}"
+            r.check(got == want, f"Survey.xml[{table.split('_')[0]} trigger = {desc}]", f"{want}" + (" with PyXFormError" if want == "refused" else ""), xml_fn.loc(), why_fail=got[:200])
+    return r
 
 
 def _regex_of_match(ctx, prov, fi, match_expr):
